@@ -21,7 +21,7 @@ CHECKS["C18"] = dict(
                  "horizon == an existing version number is excluded from the 'lookups unchanged' clause only (horizons and versions never coincide in fs_db)"],
     parts=[
         P("exhaustive", "unit", "TestC18Exhaustive", dict(checks=1, shards=1, timeout=300), dict(checks=1, shards=1, timeout=300), rapid=False),
-        P("seq", "unit", "TestC18Seq", dict(checks=8000, shards=16, timeout=600), dict(checks=200000, shards=16, timeout=3000)),
+        P("seq", "unit", "TestC18Seq", dict(checks=32000, shards=16, timeout=600), dict(checks=200000, shards=16, timeout=3000)),
     ],
 )
 
@@ -36,8 +36,8 @@ CHECKS["C19"] = dict(
           "is opened by the current tree. thorough adds native go fuzzing of the decoder with the same oracle."),
     assumptions=["transaction and content ids are canonical lower-case UUID strings (every producer in fs_db uses uuid.NewString or the nil UUID)"],
     parts=[
-        P("round", "unit", "TestC19Round", dict(checks=20000, shards=16, timeout=600), dict(checks=1000000, shards=16, timeout=3000)),
-        P("bytes", "unit", "TestC19Bytes", dict(checks=20000, shards=16, timeout=600), dict(checks=1000000, shards=16, timeout=3000)),
+        P("round", "unit", "TestC19Round", dict(checks=64000, shards=16, timeout=600), dict(checks=1000000, shards=16, timeout=3000)),
+        P("bytes", "unit", "TestC19Bytes", dict(checks=64000, shards=16, timeout=600), dict(checks=1000000, shards=16, timeout=3000)),
         P("lengths", "unit", "TestC19Lengths", dict(checks=1, shards=1), dict(checks=1, shards=1), rapid=False),
         P("golden", "unit", "TestC19Golden", dict(checks=1, shards=1), dict(checks=1, shards=1), rapid=False),
         P("fixture", "seq", "TestC19Fixture", dict(checks=1, shards=1), dict(checks=1, shards=1), rapid=False),
@@ -58,9 +58,9 @@ CHECKS["C20"] = dict(
                  "the process environment is private to the check process; cases run one at a time per process"],
     exhaustive_when_parts=None,
     parts=[
-        P("parse", "unit", "TestC20Parse", dict(checks=12000, shards=16, timeout=600), dict(checks=400000, shards=16, timeout=3000)),
+        P("parse", "unit", "TestC20Parse", dict(checks=48000, shards=16, timeout=600), dict(checks=400000, shards=16, timeout=3000)),
         P("states", "unit", "TestC20States", dict(checks=1, shards=4, split=False, timeout=600), dict(checks=1, shards=16, split=False, timeout=3000), rapid=False),
-        P("valid", "unit", "TestC20Valid", dict(checks=8000, shards=16, timeout=600), dict(checks=200000, shards=4, timeout=3000)),
+        P("valid", "unit", "TestC20Valid", dict(checks=32000, shards=16, timeout=600), dict(checks=200000, shards=4, timeout=3000)),
     ],
 )
 
@@ -137,7 +137,7 @@ CHECKS["C17"] = dict(
           "after a burst deletion a directory that once reached the limit and regained room must receive one of the next 64*k writes (k = number of directories; miss probability < 2e-28). "
           "non-trivial = some directory reached the limit and a root ended up with >= 2 directories (rotation)."),
     assumptions=_E1_ASSUME + ["directory choice is a uniform shuffle over the active directories (math/rand/v2 PCG seeded by fs_db); the only probabilistic assertion is the reuse probe, bound stated in the rule"],
-    parts=[P("seq", "seq", "TestC17", dict(checks=256, shards=16, timeout=900), dict(checks=6000, shards=16, timeout=3000))],
+    parts=[P("seq", "seq", "TestC17", dict(checks=768, shards=16, timeout=900), dict(checks=6000, shards=16, timeout=3000))],
 )
 
 CHECKS["C04"] = dict(
@@ -184,7 +184,7 @@ CHECKS["C10"] = dict(
           "non-trivial = the injected fault actually fired (hook/reader counter)."),
     assumptions=["the server side of an aborted upload finishes asynchronously: the check waits until no instrumented step happened for 40 ms before reading (can only miss, never invent a trace)",
                  "ENOSPC is injected at the File.Write wrapper (hook), free space through the disk-usage hook; all roots of the sandbox share one real filesystem"],
-    parts=[P("faults", "seq", "TestC10", dict(checks=3200, shards=16, timeout=900), dict(checks=100000, shards=16, timeout=3400))],
+    parts=[P("faults", "seq", "TestC10", dict(checks=8000, shards=16, timeout=900), dict(checks=100000, shards=16, timeout=3400))],
 )
 
 CHECKS["C11"] = dict(
@@ -192,13 +192,15 @@ CHECKS["C11"] = dict(
     rule=("part 'ext': the C01/C02/C03/C13 history generators (autocommit content-heavy incl. the empty key and lengths 0,1,2047-2049,4095-4097,6000,100 KiB through Set/SetReader/Create; transactional at all four levels; operations through ended/unknown transactions) "
           "executed through pkg/external.Open against internal/app serving on a loopback listener in the same process; after every step every actor's Get/GetReader of every key and GetKeys are compared with the SAME reference model the inline client is held to "
           "(values byte-exact, error class by errors.Is over the exported sentinels). non-trivial = the history used a transaction and some call returned an error. "
-          "part 'binkey': a direct differential run for keys that are not valid UTF-8 (1-3 keys, mostly invalid UTF-8, drawn from hostile constants and random bytes; 1-10 operations Set/SetReader/Create/Get/GetReader/Delete/GetKeys, optionally through one transaction): the same program on a fresh inline database and through the gRPC client against a fresh server, results compared call by call (error class, bytes, key list); non-trivial = a call named a non-UTF-8 key. The only excused difference is the listed known finding (the gRPC marshaller rejects such keys). "
+          "part 'binkey': a direct differential run for keys that are not valid UTF-8 and for the empty key (1-3 keys, mostly invalid UTF-8, drawn from hostile constants and random bytes, now and then the empty key; 1-10 operations Set/SetReader/Create/Get/GetReader/Delete/GetKeys, optionally through one transaction): the same program on a fresh inline database and through the gRPC client against a fresh server, results compared call by call (error class, bytes, key list); non-trivial = a call named a non-UTF-8 key or the empty key. The only excused difference is the listed known finding (the gRPC marshaller rejects such keys). "
+          "part 'filediff': the life of one file handle from Create, again as a direct differential (0-6 writes of sizes 0 ... 3 MiB through a re-used buffer; the storing side succeeds, rejects the empty key, or runs out of space on every root after 1 ... 100 000 bytes; 1-3 Close calls; optionally inside a transaction, optionally over a previous value): compared are the class of every Close, that a Write which reported a failure reported the class the inline Close reports, the Commit, and what the key reads afterwards - NOT the class of individual Writes (whether a Write already sees the storing side's failure is a matter of buffering on both sides); non-trivial = the storing side failed or the file was closed more than once. "
           "part 'errors': error values built from every exported sentinel under random fmt.Errorf(%w) chains / errors.Join with foreign errors -> adapter Error -> gRPC status -> adapter ClientError; class(client(server(e))) must equal class(e), non-sentinel errors must become ErrUnknown."),
     assumptions=_E1_ASSUME[:2] + ["differential via the shared model: both clients are compared with the same reference model rather than with each other (the inline runs are C01-C03, C13)",
                                   "known finding C13-late-write-accepted applies here too (writes through ended handles)",
                                   "known finding C11-non-utf8-key: after the first excused call the two databases differ, so that case's comparison stops there"],
-    parts=[P("ext", "seq", "TestC11", dict(checks=320, shards=16, timeout=900), dict(checks=20000, shards=16, timeout=3400)),
-           P("binkey", "seq", "TestC11BinKey", dict(checks=320, shards=16, timeout=900), dict(checks=8000, shards=16, timeout=3400)),
+    parts=[P("ext", "seq", "TestC11", dict(checks=1280, shards=16, timeout=900), dict(checks=20000, shards=16, timeout=3400)),
+           P("binkey", "seq", "TestC11BinKey", dict(checks=640, shards=16, timeout=900), dict(checks=8000, shards=16, timeout=3400)),
+           P("filediff", "seq", "TestC11FileDiff", dict(checks=480, shards=16, timeout=900), dict(checks=12000, shards=16, timeout=3400)),
            P("errors", "unit", "TestC11Errors", dict(checks=60000, shards=16, timeout=600), dict(checks=1000000, shards=16, timeout=3000))],
 )
 
@@ -281,7 +283,7 @@ CHECKS["C16"] = dict(
     parts=[
         P("enum", "det", "TestC16Enum", dict(checks=1, shards=8, split=False, timeout=900, env={"VERIF_POOL_BOUND": "1"}),
           dict(checks=1, shards=16, split=False, timeout=3400, env={"VERIF_POOL_BOUND": "3"}), rapid=False, rewrite=_E4_DIRS),
-        P("rand", "det", "TestC16Rand", dict(checks=16000, shards=8, timeout=900), dict(checks=4000000, shards=16, timeout=3400), rewrite=_E4_DIRS),
+        P("rand", "det", "TestC16Rand", dict(checks=64000, shards=8, timeout=900), dict(checks=4000000, shards=16, timeout=3400), rewrite=_E4_DIRS),
     ],
 )
 
